@@ -466,7 +466,7 @@ func permutations(n int, fn func([]int)) {
 
 func main() {
 	ev.Main("C05", "exploration",
-		"generated blob sets (keys, permanodes, set/add/del/path/member/share claims, delete chains incl. deletes of shares, files with nested bytes, directories with plain and split (mergeSets) static sets, opaque blobs, signed blobs with an INVALID signature (never indexable; they wait for their key like any signed blob); optionally one dangling dependency: key, chunk, bytes, static set, delete target incl. a permanode) delivered under arrival schedules: all permutations for sets of <=6 blobs, seeded permutations for larger sets, prefilled/non-prefilled source, adjacent and late duplicates, mid-history restarts, 2-8 concurrent deliverers (round-robin, and random lanes where ~10% of the blobs are uploaded by 2-3 lanes at once, optionally with a restart barrier) with jitter in the blob source, and same-blob races (2-6 concurrent uploads of one dependant while its dependency arrives, the not-found answers of the dependency lookup at the blob source / meta row steered by a seeded hold policy); the sorted row dump must equal the dependency-order run, a full Reindex on a fresh index, and (sampled) a Reindex() on the live index after the schedule; one transient failure of a row-store call under the index (the n-th Get/Set/Delete/CommitBatch/Find of a row class, made for an upload or by the asynchronous re-indexer; every failing note of a pending edge of an out-of-order arrival is enumerated) with an uploader that re-sends only uploads that failed; complete sets leave no pending needs, nothing indexable stays queued, and a dangling set converges to the complete set's rows when the missing blob is delivered after any schedule; distinct = (world, schedule); non-trivial = schedule differs from dependency order",
+		"generated blob sets (keys, permanodes, set/add/del/path/member/share claims, delete chains incl. deletes of shares, files with nested bytes, directories with plain and split (mergeSets) static sets, opaque blobs, signed blobs with an INVALID signature (never indexable; they wait for their key like any signed blob); optionally one dangling dependency: key, chunk, bytes, static set, delete target incl. a permanode) delivered under arrival schedules: all permutations for sets of <=6 blobs, seeded permutations for larger sets, prefilled/non-prefilled source, adjacent and late duplicates, mid-history restarts, 2-8 concurrent deliverers (round-robin, and random lanes where ~10% of the blobs are uploaded by 2-3 lanes at once, optionally with a restart barrier) with jitter in the blob source, and same-blob races (2-6 concurrent uploads of one dependant while its dependency arrives, the not-found answers of the dependency lookup at the blob source / meta row steered by a seeded hold policy); the sorted row dump must equal the dependency-order run, a full Reindex on a fresh index, and (sampled) a Reindex() on the live index after the schedule; one transient failure of a row-store call made by the index on behalf of an upload (the n-th Set of a missing| edge - every failing note of a pending edge of an out-of-order arrival is enumerated -, CommitBatch, Get of a have: row or Find of missing| edges) with an uploader that re-sends only uploads that failed; complete sets leave no pending needs, nothing indexable stays queued, and a dangling set converges to the complete set's rows when the missing blob is delivered after any schedule; distinct = (world, schedule); non-trivial = schedule differs from dependency order",
 		run)
 }
 
@@ -486,6 +486,8 @@ func run(r *ev.Run) {
 	r.Assume("row dumps are taken after the out-of-order reindexing goroutines quiesce (hook VerifWaitOutOfOrder)")
 	r.Assume("a signed blob whose signature is invalid can never be indexed: its delivery may be refused, it has no rows (beyond a missing| edge while its key is absent) and it may stay in the ready-to-reindex queue; no other blob may stay there")
 	r.Assume("kv-fault family: exactly one call of the row store under the index fails, without effect; the uploader sends again an upload that failed and never one that was acknowledged; pending edges (missing| rows) that outlive their purpose after a failed deletion are counted, not judged: what is judged is that every acknowledged blob ends up indexed as in the reference, that waiting blobs stay recorded as waiting, and that the history can continue (late arrival of the missing blob, on the same index or after re-opening it)")
+	r.Assume("kv-fault family: the property quantifies over arrival orders, interleavings, duplicates and restarts, not over storage faults; a failure is injected only where it makes the upload fail (which the uploader re-sends: a duplicate arrival after a partial effect) or is harmless: a Set of a missing| edge, a CommitBatch, a Get of a have: row, a Find of missing| edges, all made on behalf of an upload")
+	r.Assume("kv-fault family: never failed (perkeep logs and continues there, with nobody left to retry; outside the property): the Get of a delete claim's target meta row in populateDeleteClaim, any Delete of a missing| edge, and every row-store call made by the asynchronous re-indexer (indexReadyBlobs); the list is in the evidence under kv_fault_never_injected_at")
 	r.Assume("hold timers of the same-blob races only shape the interleaving; every verdict is taken from the rows and pending maps after quiescence")
 	root := ev.Scratch("c05")
 	defer os.RemoveAll(root)
@@ -888,8 +890,9 @@ func run(r *ev.Run) {
 	r.Require("schedule_modes", "sequential", "concurrent", "restart", "duplicates", "prefilled-source", "full-reindex", "dangling-then-delivered",
 		"late-duplicates", "lanes", "lanes-with-restart", "live-reindex", "same-blob-race", "bad-signature-before-key")
 	r.Require("schedule_modes", "kv-fault", "dangling-delivered-after-kv-fault", "dangling-delivered-after-kv-fault-and-restart")
-	r.Require("kv_fault_delivered", "Set-missing@upload", "CommitBatch-batch@upload", "Get-have@upload", "Get-meta@upload", "Delete-missing@upload", "Find-missing@upload",
-		"Set-missing@async", "CommitBatch-batch@async", "Get-have@async", "Get-meta@async", "Delete-missing@async", "Find-missing@async")
+	r.Require("kv_fault_delivered", faultInjected...)
+	r.Extra("kv_fault_injected_at", faultInjected)
+	r.Extra("kv_fault_never_injected_at", faultExcluded)
 	r.Require("kv_fault_pending_note_failed", "file<-chunk", "directory<-static-set", "claim<-key", "permanode<-key", "delete<-key")
 	r.Require("race_uploads", "2", "3", "4")
 	r.Require("race_dependant_kinds", "claim<-key", "permanode<-key", "file<-chunk", "delete<-permanode", "delete<-claim", "directory<-static-set")
